@@ -17,9 +17,11 @@ CLAIMED = {
  "C03": ("All Hamming 8/4, 24/18, parity and bit-reversal primitives equal reference codes written from the parity equations for every input, every single error is corrected and every double error rejected; "
          "for each consumer (page link, MOT, POP, X/27, X/28-29, AIT) one symbolic single-bit error anywhere in a clean protected byte/triplet leaves exactly the same decoder state as the clean packet; "
          "an uncorrectable address changes nothing; an uncorrectable header subcode/control byte never lets the page be assembled; a row with a parity error never replaces a good row; X/26 out of sequence stores nothing.", "0.3 / 5 C03"),
- "C09": ("One inductive step of the XDS demultiplexer from an arbitrary state satisfying a stated invariant, for every byte pair (first byte case-split over every dispatch class, second byte symbolic), is shown to be "
-         "exactly the EIA-608 reassembly step (start/continue/content/terminator/parity error/caption interruption), to deliver iff the checksum is good with the packet's class, type, length <= 32 and bytes, and to "
-         "touch no other packet; the invariant holds initially. Same step for the service decoder's own separator and memory safety of its XDS decoder for every type/length (thorough tier).", "0.3 / 5 C09"),
+ "C09": ("One inductive step of the XDS demultiplexer (xds_demux.c) and of the service decoder's own separator (caption.c, real struct caption) from an arbitrary state satisfying a stated invariant, "
+         "for every byte pair class (first byte case-split over every switch arm and its boundaries, second byte symbolic; every accepted type and every rejected/parity-damaged second byte of a header), is shown to be "
+         "exactly the EIA-608 reassembly step (start/continue/content/terminator/parity error/caption interruption), to deliver iff the checksum is good and >= 1 byte with the packet's class, type, length <= 32 and bytes, "
+         "and to touch none of the other packet slots; the invariant holds initially; sequences of any length follow by induction (argument). xds_decoder for class x type x length: memory safety, frame on the decoder head "
+         "(a packet changes only the record of its own class), exact title/description/network name/call letters/PIN/length/CGMS/type/tape delay, event discipline.", "0.3 C09"),
  "C11": ("Inductive decomposition around a stated list invariant (NULL-terminated list of malloc'ed records with pairwise different (handler, user_data), masks != 0, event_mask == OR of masks, cursor NULL, mutex free): "
          "one symbolic register/unregister/add/remove call from every such list (outside delivery and, with the cursor lemma, inside a callback) yields exactly the documented list; one vbi_send_event of any type with 1-2 "
          "nested calls from callbacks satisfies the full delivery contract against a shadow list of registration instances (exactly once, own user pointer, registration order, added-during-delivery at most once, "
@@ -71,7 +73,7 @@ NA = {
  "C20": "quantifier is thread schedules: goto-instrument --race-check crashes on struct-member shared state and cbmc's thread support aborts ('pointer handling for concurrency is unsound') on the real functions; "
         "no other engine is installed; lock discipline is checked sequentially inside other properties' harnesses (DESIGN section 5 C20)",
 }
-READY = ["C02", "C04", "C05", "C06", "C07", "C08", "C10", "C11", "C12", "C13", "C14", "C15", "C16", "C17", "C18", "C19"]   # properties whose quick check is known to pass on the unchanged tree
+READY = ["C02", "C04", "C05", "C06", "C07", "C08", "C09", "C10", "C11", "C12", "C13", "C14", "C15", "C16", "C17", "C18", "C19"]   # properties whose quick check is known to pass on the unchanged tree
 
 def main():
     props = [json.loads(l)["id"] for l in open(os.path.join(HERE, "properties.jsonl"))]
